@@ -56,7 +56,7 @@ var wireRule = "runs of scenario wire (generated logical requests and responses 
 var properties = map[string]*propSpec{
 	"C03": {Level: "exploration", Scenarios: []scenRef{{Name: "wire", quickS: 20, thoroughS: 600, Extra: []string{"-sim.nofaultevery=0"}}}, Rule: wireRule},
 	"C04": {Level: "exploration", Scenarios: []scenRef{{Name: "wire", quickS: 20, thoroughS: 600, Extra: []string{"-sim.nofaultevery=0"}}}, Rule: wireRule},
-	"C18": {Level: "exploration", Scenarios: []scenRef{{Name: "wire", quickS: 20, thoroughS: 600, Extra: []string{"-sim.nofaultevery=0"}}}, Rule: wireRule},
+	"C18": {Level: "exploration", Scenarios: []scenRef{{Name: "wire", quickS: 20, thoroughS: 600, Extra: []string{"-sim.nofaultevery=0"}}, {Name: "wire", quickS: 12, thoroughS: 180, Extra: []string{"-sim.nofaultevery=0"}, Procs: 4}}, Rule: wireRule},
 	"C01": {Level: "exploration", Scenarios: []scenRef{{Name: "mux", quickS: 20, thoroughS: 600}}, CrashProperty: "C01",
 		Rule: "runs of scenario mux; distinct = distinct canonical-log fingerprint; non-trivial = at least one injected fault or park fired and at least one operation completed"},
 	"C05": {Level: "exploration", Scenarios: []scenRef{{Name: "byz", quickS: 25, thoroughS: 900}},
@@ -65,7 +65,7 @@ var properties = map[string]*propSpec{
 		Rule: "runs of scenario wr; distinct = distinct canonical-log fingerprint; non-trivial = at least one write fault, cancel or park fired and at least one operation completed"},
 	"C13": {Level: "exploration", Scenarios: []scenRef{{Name: "retry", quickS: 20, thoroughS: 600}, {Name: "life", quickS: 8, thoroughS: 120}},
 		Rule: "runs of scenario retry (scripted per-attempt outcomes x retry policy x speculative policy x tape-chosen host order, exact and relaxed configurations); distinct = distinct canonical-log fingerprint; non-trivial = at least one failed attempt, cancel, connection loss or park occurred and at least one operation completed"},
-	"C14": {Level: "exploration", Scenarios: []scenRef{{Name: "prep", quickS: 20, thoroughS: 600}},
+	"C14": {Level: "exploration", Scenarios: []scenRef{{Name: "prep", quickS: 20, thoroughS: 600}, {Name: "prep", quickS: 8, thoroughS: 120, Procs: 4}},
 		Rule: "runs of scenario prep (concurrent executors of 1-3 statements, small caches, PREPARE failures, UNPREPARED answers after node restarts, parks inside prepareStatement); distinct = distinct canonical-log fingerprint; non-trivial = at least one fault or park fired and at least one operation completed"},
 	"C15": {Level: "exploration", Scenarios: []scenRef{{Name: "page", quickS: 20, thoroughS: 600}},
 		Rule: "runs of scenario page (scripted pages incl. empty ones, page sizes, prefetch thresholds, four consumers stepped row by row, manual paging, a fetch failure at any page, prefetch reply racing the consumer); distinct = distinct canonical-log fingerprint; non-trivial = at least one fault or park fired and at least one operation completed"},
@@ -76,7 +76,7 @@ var properties = map[string]*propSpec{
 		Rule: "runs of scenario sec: one cell of the documented TLS table (Config nil/present x InsecureSkipVerify x EnableHostVerification x ServerName x CA / key-pair file variants x certificate presented x host form) with real crypto/tls over the simulated transport, or one cell of the authentication table (class demanded x client authenticator x credentials); distinct = distinct canonical-log fingerprint; non-trivial = a non-default variant was drawn and the session attempt completed"},
 	"C16": {Level: "exploration", Scenarios: []scenRef{{Name: "topo", quickS: 25, thoroughS: 600}}, DeadlockProperty: "C17",
 		Rule: "runs of scenario topo: tape-chosen membership/event/fault histories on a cluster model, each step followed by a settle and a full comparison of ring, address index, host list, pools and policy with the model; distinct = distinct canonical-log fingerprint; non-trivial = at least one membership change or fault was applied and at least one comparison completed"},
-	"C17": {Level: "exploration", Scenarios: []scenRef{{Name: "life", quickS: 25, thoroughS: 600}, {Name: "sec", quickS: 6, thoroughS: 60}}, DeadlockProperty: "C17", RaceScenario: "life",
+	"C17": {Level: "exploration", Scenarios: []scenRef{{Name: "life", quickS: 25, thoroughS: 600}, {Name: "sec", quickS: 6, thoroughS: 60}, {Name: "life", quickS: 8, thoroughS: 120, Procs: 4}}, DeadlockProperty: "C17", RaceScenario: "life",
 		Rule: "runs of scenario life (queries, 1-2 Session.Close calls at tape-chosen points, events, connection and control-connection losses, handshake failures, dial refusals, parks at pool / debouncer / control / Close yield points) and of scenario sec (goroutines surviving failed session creation); distinct = distinct canonical-log fingerprint; non-trivial = at least one fault or park fired and at least one operation completed"},
 	"C11": {Level: "exploration", Scenarios: []scenRef{{Name: "pick", quickS: 12, thoroughS: 500}, {Name: "pick", quickS: 8, thoroughS: 100, Procs: 8}},
 		Rule: "runs of scenario pick: generated cluster layouts and add/remove/up/down/keyspace histories against a host-set model, picks iterated to exhaustion, plus scheduled picks racing mutations; distinct = distinct canonical-log fingerprint; non-trivial = at least one state-changing history op was applied and at least one checked pick with two or more known hosts completed"},
